@@ -56,7 +56,11 @@ EXC_TYPES = [ValueError, KeyError, RuntimeError, ImportError, AttributeError, Na
              ZeroDivisionError, AssertionError, UnicodeError, IndexError, ModuleNotFoundError]
 MESSAGES = ['something broke', "name 'plarp' is not defined", '<vx7q1 a=1>x</vx7q1>', '"><vx7q2 b=2>', "' vx7qattr3='1",
             '{tb_str}{#parsed_err}x{/parsed_err}', '{~lb}{>partial/}{@eq key=1}', 'caf\xe9 ☃ 日本', '&lt;vx7q4&gt; &amp;',
-            'colon: inside: message', 'a' * 500, 'tabs\tand  spaces', '[Errno 2] No such file: "/x/<y>"', '100% {done}']
+            'colon: inside: message', 'a' * 500, 'tabs\tand  spaces', '[Errno 2] No such file: "/x/<y>"', '100% {done}',
+            # text that a Unicode normalisation would respell (decomposed accents, compatibility characters, Hangul jamo,
+            # marks in non-canonical order): the page shows the text it was given
+            'Zoe\u0308 cannot open re\u0301sume\u0301.txt', 'R = 5 \u2126, d = 3 \u212b, T = 2 \u212a', 'bad glyph \uf900 \ufb01 \uff21',
+            '\u1112\u1161\u11ab\u1100\u1173\u11af', 'q\u0307\u0323 != q\u0323\u0307', '\u00bd \u2460 \u33a1']
 
 
 def raise_at_depth(exc, depth):
@@ -100,7 +104,7 @@ def random_text(rng):
 
 def gen_case(rng, n):
     kind = rng.pick(['traceback', 'traceback', 'traceback', 'syntax', 'truncated', 'concatenated', 'random', 'template', 'empty',
-                     'none', 'bytes', 'int', 'ignored-exc'])
+                     'none', 'bytes', 'int', 'ignored-exc', 'bare-line'])
     exp = None
     if kind == 'traceback':
         text, name, msg = real_traceback(rng)
@@ -115,6 +119,15 @@ def gen_case(rng, n):
     elif kind == 'ignored-exc':
         text, name, msg = real_traceback(rng)
         text += 'Exception ignored in: <function X.__del__ at 0x7f>\n'
+    elif kind == 'bare-line':
+        # not a traceback at all: a lone "Type: message" line or a tool's message - text that merely *mentions* character
+        # references, backslash escapes or percent escapes is text like any other
+        text = rng.pick(['ValueError: unexpected entity &nbsp; after &lt;td&gt;', 'error: &amp; is not allowed here', 'AttributeError: &#38; &#x27; &#60;vx7q11&#62;',
+                         'TemplateSyntaxError: expected token &gt; got &quot;', 'note &copy; 2024 &mdash; reload failed', 'ImportError: No module named caf\\xe9',
+                         'KeyError: %3Cvx7q12%3E %26amp%3B', 'OSError: [Errno 2] \\u003cvx7q13\\u003e', 'SyntaxError: invalid character &#x2028; in identifier',
+                         'RuntimeError: &lt;vx7q14 a=1&gt;x&lt;/vx7q14&gt;', 'reloader: watching 3 files &hellip; &#8230; &lt;', 'E: &amp;amp;lt; twice &amp;lt;'])
+        if rng.chance(0.3):
+            text = text + rng.pick(['\n', '\n\n', ' '])
     elif kind == 'random':
         text = random_text(rng)
     elif kind == 'template':
@@ -238,6 +251,11 @@ def judge(sh, case, record=True):
         return
     if case['method'] == 'HEAD':
         return
+    if ex.length_problem():
+        # the page is what a browser reads: the announced number of bytes of what was sent
+        bad('page-cut-short', ex.length_problem())
+        return
+    sh.hit('content-length-compared')
     body = ex.body.decode('utf8', 'replace')
     tok = Tok()
     tok.feed(body)
